@@ -439,9 +439,14 @@ def _r4(ctx):
         trip = re.findall(r"%\{(\w+)\}\.\{(\w+)\}f", inner)
         ctx.decide(len(trip) == 3 and len(set(trip)) == 1, "C01-R4", w, rel, cls + "._write_frame", "three coordinate fields of equal width.precision", "",
                    "coordinate fields differ: %s (the reader infers one width from the distance between decimal points)" % trip)
-        vw = [n for n in walk_no_nested(w) if isinstance(n, ast.Assign) and dotted(n.targets[0]) == "varwidth"]
-        ctx.decide(bool(vw) and src(vw[0].value).replace(" ", "") == "precision+5", "C01-R4", vw[0] if vw else w, rel, cls + "._write_frame", "varwidth = precision + 5", "",
-                   "field width is not precision + 5 (GROMACS: ddd.ppp with 4 leading columns)")
+        # the width / precision placeholders of the coordinate fields, through single-definition locals: width = precision + 5
+        from ..pyfront import inline_locals as _inl
+        wtxt = ptxt = None
+        if trip:
+            wtxt = _inl(w, ast.parse(trip[0][0], mode="eval").body).replace(" ", "")
+            ptxt = _inl(w, ast.parse(trip[0][1], mode="eval").body).replace(" ", "")
+        ctx.decide(wtxt in ("precision+5", "5+precision", "(precision+5)") and ptxt == "precision", "C01-R4", w, rel, cls + "._write_frame", "coordinate fields are %<precision + 5>.<precision>f", "",
+                   "the coordinate fields are written with width `%s` and precision `%s`; GROMACS: ddd.ppp with 4 leading columns, i.e. width = precision + 5" % (wtxt, ptxt))
         pr = ctx.py.func(rel, "_parse_gro_coord")
         ctx.decide("line[20 + i * digits:20 + (i + 1) * digits]" in src(pr), "C01-R4", pr, rel, "_parse_gro_coord", "coordinates start at column 20, width = decimal distance", "",
                    "gro coordinate parser no longer reads three contiguous fields from column 20")
